@@ -69,8 +69,18 @@ def run(ctx):
         elif kind == 4:
             x, y = 2**256 - 1, 2**256 - 1
         bad.append(hx(x.to_bytes(32, "big") + y.to_bytes(32, "big")))
+    # genuine points of the curve in another representative of a coordinate: (x, y + p), (x + p, y) - they fit into 32 bytes only
+    # when the coordinate is below 2^256 - p, so such points are constructed (small x: square root; small y: roots of the cubic)
+    small_x, small_y = refec.points_with_small_coordinate(refec.P256, rng, count=3 if ctx.quick else 12)
+    for (x, y) in small_y:
+        bad.append(hx(x.to_bytes(32, "big") + (y + P).to_bytes(32, "big")))
+    for (x, y) in small_x:
+        bad.append(hx((x + P).to_bytes(32, "big") + y.to_bytes(32, "big")))
+    bad.append(hx((small_x[0][0] + P).to_bytes(32, "big") + (small_x[0][1]).to_bytes(32, "big")))
+    crafted = bad[-(len(small_x) + len(small_y) + 1):]
     ctx.correspond([f"ecc.load {b}" for b in bad], "ecc.load-bad")
-    ctx.correspond([f"ecc.dec {gb.gen_scalar(rng)} {hx(bytes([4]) + bytes.fromhex(b) + g.rbytes(rng, 16))}" for b in bad[:30]], "ecc.dec-bad")
+    ctx.correspond([f"ecc.dec {gb.gen_scalar(rng)} {hx(bytes([4]) + bytes.fromhex(b) + g.rbytes(rng, 16))}" for b in bad[:30] + crafted],
+                   "ecc.dec-bad")
     ctx.correspond([f"ecc.dec 5 {hx(g.rbytes(rng, ln))}" for ln in (0, 1, 2, 64, 65, 80, 81)], "ecc.dec-short")
     # a well-formed block whose point-format byte is not 04, or with bytes behind the ciphertext
     good = [r[3:] for r in r[1::2] if r.startswith("ok ")][:12]
